@@ -135,8 +135,8 @@ func inferPatterns(body string, binders []string) string {
 			// do not take patterns from nested quantifier bodies (their own binders)
 			return
 		}
-		isFn := strings.HasPrefix(h, "fn.") || strings.HasPrefix(h, "ghost.") || strings.HasPrefix(h, "sub.") || strings.HasPrefix(h, "box.") || strings.HasPrefix(h, "unbox.")
-		isSel := h == "select" || h == "s_len" || h == "s_arr" || h == "itag" || h == "ival" || h == "str_len" || strings.HasPrefix(h, "S.") || strings.HasPrefix(h, "maplen.")
+		isFn := strings.HasPrefix(h, "fn.") || strings.HasPrefix(h, "ghost.") || strings.HasPrefix(h, "at.") || strings.HasPrefix(h, "sub.") || strings.HasPrefix(h, "box.") || strings.HasPrefix(h, "unbox.")
+		isSel := h == "select" || h == "s_arr" || h == "itag" || h == "ival" || h == "str_len" || strings.HasPrefix(h, "S.") || strings.HasPrefix(h, "maplen.")
 		if (isFn || isSel) && legalPattern(n) {
 			vs := map[string]bool{}
 			n.vars(bound, vs)
